@@ -442,8 +442,8 @@ def run(ck, replay):
             return
         ml = vlib.run_model("\n".join(lines) + "\n")
         if not quick:
-            pick = [i for i in range(len(lines)) if len(lines[i]) < 900][:150]
-            vm = vm_chunks([lines[i] for i in pick])
+            pick = [i for i in range(len(lines)) if len(lines[i]) < 600][:120]
+            vm = vm_chunks([lines[i] for i in pick], limit=2500)   # each case prints ~4x its input (two encodings + decode)
             ck.add_obligation(vm == [ml[i] for i in pick], "extracted model agrees with vm_compute on %d codec cases" % len(pick))
         dec_cases = []
         for i, (c, m) in enumerate(msgs):
